@@ -52,6 +52,8 @@ def midi_dir(prefix="verif-midi-"):
 def value_of(v):
     if isinstance(v, str):
         return V.BY_LABEL[v][1]
+    if isinstance(v, (list, tuple)) and v[0] == "ticks":
+        return 288.0 / v[1]                 # the float value of a whole number of ticks (72 per quarter note)
     return v
 
 
